@@ -47,6 +47,8 @@ class Obj:
 KEYS = {
     "plain":   {"a": "a", "b": "b", "i": "i", "t1": "t1", "t2": "t2", "e": "e", "l": "l"},
     "hostile": {"a": "s['b']", "b": "a']['b", "i": ("t", 1), "t1": 1.5, "t2": "é\"q", "e": "s", "l": -7},
+    # the two list slots addressed from the end: s['l'][-2], s['l'][-1]  (hash(-1) == hash(-2) in CPython)
+    "negidx":  {"a": "a", "b": "b", "i": "i", "t1": "t1", "t2": "t2", "e": "e", "l": "l", "_li": -2},
 }
 
 
@@ -183,7 +185,7 @@ class World:
         if l == "e.p":
             return r[K["e"]].p
         if l in ("l.0", "l.1"):
-            return r[K["l"]][int(l[-1])]
+            return r[K["l"]][int(l[-1]) + K.get("_li", 0)]
         if l == "s":
             return r
         return r[K[l]]
@@ -233,8 +235,9 @@ class World:
         if len(steps) == 2:
             if first == "e" and steps[1] == ("attr", "p"):
                 return "e.p"
-            if first == "l" and steps[1][0] == "item" and steps[1][1] in (0, 1) and not isinstance(steps[1][1], bool):
-                return f"l.{steps[1][1]}"
+            off = K.get("_li", 0)
+            if first == "l" and steps[1][0] == "item" and steps[1][1] in (0 + off, 1 + off) and not isinstance(steps[1][1], bool):
+                return f"l.{steps[1][1] - off}"
             if first == "l" and steps[1][0] == "item" and hasattr(steps[1][1], "_get_value"):
                 return "l.[*]"
         return None
@@ -406,9 +409,10 @@ def apply(w, lab):
                 o.p = r
             elif t in ("l.0", "l.1"):
                 o = w.sref[w.K["l"]]
-                r = o[int(t[-1])]
+                j = int(t[-1]) + w.K.get("_li", 0)
+                r = o[j]
                 r = iop(r, v)
-                o[int(t[-1])] = r
+                o[j] = r
             else:
                 r = w.sref[w.K[t]]
                 r = iop(r, v)
@@ -418,7 +422,7 @@ def apply(w, lab):
             if l == "e.p":
                 w.sref[w.K["e"]].p = v
             elif l in ("l.0", "l.1"):
-                w.sref[w.K["l"]][int(l[-1])] = v
+                w.sref[w.K["l"]][int(l[-1]) + w.K.get("_li", 0)] = v
             else:
                 w.sref[w.K[l]] = v
         else:
